@@ -168,7 +168,7 @@ func runC15(c *Ctx) {
 		calls := find(fn, callVia(bc))
 		gA := errNil("cfg.Broadcast(tx)", calls, 0)
 		gB := boolIs("IsBroadcastError(err, Mempool)", find(fn, c.isBroadcastErrCall(c.pushtxConst("Mempool"))), 0, true)
-		g := guard{name: "Broadcast err == nil || IsBroadcastError(err, Mempool)", sites: append(append([]guardSite{}, gA.sites...), gB.sites...), unchecked: append(gA.unchecked, gB.unchecked...)}
+		g := unionGuard("Broadcast err == nil || IsBroadcastError(err, Mempool)", gA, gB)
 		c.guarded(fn, g, 2, "transactions[txid] = tx", ins, 1, gDominate)
 		reply := sendOn(loadsField(c.field("pushtx", "broadcastReq", "errChan")))
 		c.mustFollowIter(fn, "broadcast rejected (not a Mempool error)", c.failEdges(gB), reply, "req.errChan <- err", nil, 1)
